@@ -9,6 +9,7 @@ import StathamModel.Validate
 import StathamModel.Spec.Draft6
 import StathamModel.Good
 import StathamModel.SerJson
+import StathamModel.Orderer
 open Lean (Json)
 open Statham Statham.Codec
 
@@ -73,6 +74,21 @@ def handle (req : Json) : R Json := do
       match serializeJson [el] [] with
       | .ok j => pure (Json.mkObj [("parse", "ok"), ("r", "ok"), ("json", encVal j), ("elem", encElem el)])
       | .error _ => pure (Json.mkObj [("parse", "ok"), ("r", "err"), ("elem", encElem el)])
+  | "order_tree" => do
+    let els ← (← (← req.getObjVal? "elements").getArr?).toList.mapM decElem
+    match ordererTree els with
+    | .ok l => pure (Json.mkObj [("r", "ok"), ("order", Json.arr (l.map Json.str).toArray)])
+    | .error _ => pure (Json.mkObj [("r", "unresolvable")])
+  | "order_graph" => do
+    let order ← (← (← req.getObjVal? "order").getArr?).toList.mapM (·.getStr?)
+    let edges ← (← (← req.getObjVal? "edges").getArr?).toList.mapM fun e => do
+      let p ← e.getArr?
+      if p.size != 2 then throw "bad edge entry"
+      pure (← p[0]!.getStr?, ← (← p[1]!.getArr?).toList.mapM (·.getStr?))
+    let g : ClassGraph := { order := order, edges := fun n => (edges.lookup n).getD [] }
+    match ordererGraph g with
+    | .ok l => pure (Json.mkObj [("r", "ok"), ("order", Json.arr (l.map Json.str).toArray)])
+    | .error _ => pure (Json.mkObj [("r", "unresolvable")])
   | "attr_names" => do
     let tables ← getTables req
     let names ← (← (← req.getObjVal? "names").getArr?).toList.mapM (·.getStr?)
